@@ -61,6 +61,8 @@ func okArity(fn string, n int) bool {
 	return false
 }
 
+func idp(n string) *Ident { return &Ident{Name: n} }
+
 func generate(w *mon.W) {
 	rng := gen.RNG(w.Seed, "c13")
 	vg := &gen.Valid{Rng: rng}
@@ -95,6 +97,61 @@ func generate(w *mon.W) {
 			}
 			c := &Case{Twin: twin, Planted: planted, Plant: "wide", Path: path}
 			w.Do(fmt.Sprint("wide|", kind, "|", n), func(r *mon.R) { Check(c, r) })
+		}
+	}
+	// $left / $right standing alone where a column name can stand without an
+	// expression around it: every operator's bare forms, at top level, inside a
+	// join's right-hand side and after a join
+	{
+		forms := []func(x *E) *Op{
+			// a project column is a name with or without `= expression`: the bare form
+			// exists for single names only
+			func(x *E) *Op {
+				if len(x.Parts) == 1 {
+					return &Op{K: "project", Cols: []Col{{Name: idp("k")}, {Name: &x.Parts[0]}}}
+				}
+				return &Op{K: "project", Cols: []Col{{Name: idp("k")}, {Name: idp("p"), X: x}}}
+			},
+			func(x *E) *Op {
+				if len(x.Parts) == 1 {
+					return &Op{K: "project", Cols: []Col{{Name: &x.Parts[0]}}}
+				}
+				return &Op{K: "project", Cols: []Col{{Name: idp("p"), X: x}}}
+			},
+			func(x *E) *Op { return &Op{K: "extend", Cols: []Col{{X: x}}} },
+			func(x *E) *Op {
+				return &Op{K: "summarize", Cols: []Col{{X: Call("count")}}, HasBy: true, By: []Col{{X: x}}}
+			},
+			func(x *E) *Op { return &Op{K: "summarize", HasBy: true, By: []Col{{X: Name("k")}, {X: x}}} },
+			func(x *E) *Op { return &Op{K: "sort", Terms: []SortTerm{{X: x}}} },
+			func(x *E) *Op {
+				return &Op{K: "sort", Terms: []SortTerm{{X: Name("k"), Dir: "asc"}, {X: x, Dir: "desc", Nulls: "first"}}}
+			},
+			func(x *E) *Op { return &Op{K: "top", X: Num("3"), Terms: []SortTerm{{X: x}}} },
+			func(x *E) *Op { return &Op{K: "take", X: x} },
+			func(x *E) *Op { return &Op{K: "where", X: x} },
+		}
+		bads := []*E{Name("$left"), Name("$right"), Name("$left", "k"), Name("k", "$right"), Paren(Name("$left"))}
+		for fi, f := range forms {
+			for bi, bad := range bads {
+				for place := 0; place < 3; place++ {
+					build := func(x *E) *Program {
+						switch place {
+						case 0:
+							return Query("T", f(x))
+						case 1:
+							return Query("T", &Op{K: "join", Right: &Pipe{Table: Ident{Name: "U"}, Ops: []*Op{f(x)}}, Conds: []*E{Name("k")}})
+						}
+						return Query("T", &Op{K: "join", Right: &Pipe{Table: Ident{Name: "U"}}, Conds: []*E{Bin("==", Name("$left", "k"), Name("$right", "k"))}}, f(x))
+					}
+					harmless := Name("k")
+					if fi == 8 {
+						harmless = Num("5")
+					}
+					c := &Case{Twin: build(harmless), Planted: build(bad), Plant: "leftright", Path: fmt.Sprintf("leftright:bare@form%d/bad%d/place%d", fi, bi, place)}
+					w.Do(fmt.Sprint("bare|", fi, "|", bi, "|", place), func(r *mon.R) { Check(c, r) })
+				}
+			}
 		}
 	}
 	// the let rule across calls: a name an earlier call bound with let is bound
